@@ -12,7 +12,7 @@ import (
 	"strings"
 )
 
-func init() { extraSections = append(extraSections, factsCodec) }
+func init() { extraSections = append(extraSections, section{"codec", factsCodec}) }
 
 func intLit(e ast.Expr) (int64, bool) {
 	if p, ok := e.(*ast.ParenExpr); ok {
